@@ -142,18 +142,18 @@ theorem c17_semantics_take (kinds : List Kind) (hw : ∀ k ∈ kinds, k.wf = tru
     revert this hne
     cases (runTake kinds (.fin xs none) fuel k).fin with
     | gotK =>
-      intro _ ⟨hlen, rest, hrest⟩
+      intro ⟨hlen, rest, hrest⟩ _
       rw [hdet] at hrest
       have : ys = (runTake kinds (.fin xs none) fuel k).items ++ rest.items := by
         injection hrest with h1 _
       rw [this, List.take_append_of_le_length (by omega), List.take_of_length_le (by omega)]
     | exhausted =>
-      intro _ ⟨hlen, hd⟩
+      intro ⟨hlen, hd⟩ _
       rw [hdet] at hd
       injection hd with h1 _
       rw [h1, List.take_of_length_le (by omega)]
-    | raised e => intro _ ⟨_, hd⟩; rw [hdet] at hd; injection hd with _ h2; cases h2
-    | oof => intro hne _; exact absurd rfl hne
+    | raised e => intro ⟨_, hd⟩ _; rw [hdet] at hd; injection hd with _ h2; cases h2
+    | oof => intro _ hne; exact absurd rfl hne
   · obtain ⟨b, k', a, zs, hk, _, hd⟩ := hraised xs.length hpl
     obtain ⟨ws, hws⟩ := composeE_prefix b (k' :: a) xs ys (by rw [← hk]; exact h)
     have := compose_ref b xs ws (fun k'' hk'' => hw k'' (by rw [hk]; simp [hk''])) hws
@@ -207,14 +207,12 @@ theorem c17_ref_slices (n a : Nat) (xs : List V) (ls : List (List V)) :
     | zero => intro l; simp [h1]
     | succ a ih => intro l; cases l <;> simp [stepAux, ih]
   refine ⟨by simp [refE, sliceL, h1], by simp [refE, sliceL, h2], ?_⟩
-  have hm : ∀ ls : List (List V), (ls.map V.list).mapM
-      (fun x => match x.asIter with | some l => (Except.ok l : Except Err (List V)) | none => .error "TypeError")
-      = .ok ls := by
+  have hm : ∀ ls : List (List V), (ls.map V.list).mapM iterE = .ok ls := by
     intro ls
     induction ls with
     | nil => rfl
     | cons l ls ih => rw [List.map_cons, List.mapM_cons, ih]; rfl
-  simp only [refE, flattenE, hm]; rfl
+  simp only [refE, flattenE]; rw [hm]; rfl
 
 /-! ### laziness -/
 
@@ -366,7 +364,8 @@ theorem c17_model_checks_first (kinds : List Kind) (xs : List V) (tail : Option 
     deriving from it, and of the derived spec against the freshly built one, is the same run -/
 theorem c17_model_checks_reuse (o o' : TakeObs) : checkReuse true o o o' o' = true := by
   have hr : ∀ t : TakeObs, (t == t) = true := fun t => by
-    simp [BEq.beq, TakeObs.beq]
+    show (t.items == t.items && t.fin == t.fin && t.pulls == t.pulls) = true
+    simp
   simp [checkReuse, hr]
 
 /-! ### non-vacuity: concrete inputs meet every hypothesis; counter-examples without them -/
@@ -387,12 +386,12 @@ example : (match composeE exKinds [.int 0, .int 1, .int 2, .int 3, .int 4, .int 
 -- the model agrees, with little fuel
 example : ((runAll exKinds (.fin [.int 0, .int 1, .int 2, .int 3, .int 4, .int 5, .int 6, .int 7, .int 8] none) 40).items
     == [.tup [.list [.int 1, .int 3], .list [.int 5, .int 7]], .tup [.list [.int 5, .int 7], .list [.int 9]]]) = true := by decide
--- infinite source (hypotheses of `c17_infinite_sources` with N = 8, k = 1): eight items suffice
-example : ((det exKinds nat 8).answers 1 && (det [.base idBase none, .map inc, .filter odd, .chunked 2 none] nat 8).answers 1) = true := by
+-- infinite source (hypotheses of `c17_infinite_sources` with N = 7, k = 1): seven items suffice
+example : ((det exKinds nat 7).answers 1 && (det [.base idBase none, .map inc, .filter odd, .chunked 2 none] nat 7).answers 1) = true := by
   decide
-example : ((runTake exKinds nat 40 1).pulls == 8 && (runTake exKinds nat 40 1).items.length == 1) = true := by decide
--- seven items do not suffice: the eighth pull is needed (`c17_lazy` is tight here)
-example : (det exKinds nat 7).answers 1 = false := by decide
+example : ((runTake exKinds nat 40 1).pulls == 7 && (runTake exKinds nat 40 1).items.length == 1) = true := by decide
+-- six items do not suffice: the seventh pull is needed (`c17_lazy` is tight here)
+example : (det exKinds nat 6).answers 1 = false := by decide
 -- `all()` on an infinite source without a stopping stage does not terminate within the fuel: oof
 example : ((runAll [.base idBase none, .map inc] nat 30).fin == .oof) = true := by decide
 -- … and with `limit(3)` it does (`c17_all_terminates_iff_finite`, N = 3)
